@@ -55,16 +55,14 @@ def lexer(raw: str) -> _LEX_STREAM:
     :return: An iterable of tokens
     """
     start: int = 0
-    is_string: bool = False
     for i, s in enumerate(raw):
+        if i < start:
+            # inside a string literal that has already been emitted
+            continue
         if s.isspace() or s in {')', '(', ',', '=', '"'}:
             val = raw[start:i]
             start = i + 1
-            if s == '"' and is_string:
-                yield (TokenType.STRING, val)
-                is_string = False
-                continue
-            elif val == 'any':
+            if val == 'any':
                 yield (TokenType.ANY, None)
             elif val == 'all':
                 yield (TokenType.ALL, None)
@@ -82,7 +80,12 @@ def lexer(raw: str) -> _LEX_STREAM:
             elif s == '=':
                 yield (TokenType.EQUAL, None)
             elif s == '"':
-                is_string = True
+                # A string literal is taken whole, up to the closing quote.
+                end = raw.find('"', start)
+                if end < 0:
+                    raise MesonException('unterminated string in cfg expression')
+                yield (TokenType.STRING, raw[start:end])
+                start = end + 1
     val = raw[start:]
     if val:
         # This should always be an identifier
